@@ -9,7 +9,7 @@
 import ast
 
 from ..loader import AnalysisError, dotted, ClassInfo
-from ..astutil import walk_own, calls_in, norm, Defs, leaves, stmt_of, kwarg, need, returns_of
+from ..astutil import walk_own, calls_in, norm, Defs, leaves, stmt_of, kwarg, need, returns_of, expand
 from .. import cfg as cfgmod
 from ..calls import CallCtx
 from ..effects import get_effects
@@ -100,11 +100,61 @@ def rule_r2(p, res):
         r.check(not (reach & g._ids(own)) and cfgmod.RETURN not in reach, sh, own[0], "a shape with landmarks can be transformed without its landmarks on some path")
     r.check(g.must_pass(own, cfgmod.RETURN), sh, sh.node, "the coordinates must be transformed on every path")
     hl = p.own_method("Landmarkable", "has_landmarks")
-    r.check(norm(returns_of(hl.node)[0].value) == "self._landmarks is not None and self.landmarks.n_groups != 0", hl, hl.node, "has_landmarks must be true whenever a group is attached")
+    # truth table over (manager exists, manager has groups): true exactly when both hold
+    def _hl_eval(e, asg):
+        if isinstance(e, ast.Constant) and isinstance(e.value, bool):
+            return e.value
+        if isinstance(e, ast.UnaryOp) and isinstance(e.op, ast.Not):
+            v = _hl_eval(e.operand, asg)
+            return None if v is None else not v
+        if isinstance(e, ast.BoolOp):
+            vs = [_hl_eval(v, asg) for v in e.values]
+            if isinstance(e.op, ast.And):
+                return False if any(v is False for v in vs) else (None if any(v is None for v in vs) else True)
+            return True if any(v is True for v in vs) else (None if any(v is None for v in vs) else False)
+        s_ = norm(e)
+        table = {"self._landmarks is not None": asg["m"], "self._landmarks is None": not asg["m"],
+                 "self.landmarks.n_groups != 0": asg["g"], "self._landmarks.n_groups != 0": asg["g"], "self.landmarks.n_groups > 0": asg["g"], "self._landmarks.n_groups > 0": asg["g"],
+                 "self.landmarks.n_groups == 0": not asg["g"], "self._landmarks.n_groups == 0": not asg["g"]}
+        return table.get(str(s_))
+
+    def _hl_run(stmts, asg):
+        for st_ in stmts:
+            if isinstance(st_, ast.Expr) and isinstance(st_.value, ast.Constant):
+                continue
+            if isinstance(st_, ast.Return):
+                return _hl_eval(st_.value, asg) if st_.value is not None else None
+            if isinstance(st_, ast.If):
+                c_ = _hl_eval(st_.test, asg)
+                if c_ is None:
+                    return None
+                v = _hl_run(st_.body if c_ else st_.orelse, asg)
+                if v is not None or any(isinstance(x, ast.Return) for x in (st_.body if c_ else st_.orelse)):
+                    return v
+                continue
+            return None
+        return None
+    tt = {(m_, g_): _hl_run(hl.node.body, {"m": m_, "g": g_}) for m_ in (False, True) for g_ in (False, True)}
+    if any(v is None for (m_, g_), v in tt.items() if m_):
+        raise AnalysisError("C02.R2: has_landmarks is written in a form I cannot evaluate")
+    r.check(tt[(True, True)] is True and tt[(True, False)] is False and tt[(False, False)] in (False,) and tt[(False, True)] in (False,), hl, hl.node,
+            "has_landmarks must be true exactly when a manager exists and holds at least one group (found %s)" % {k_: v for k_, v in tt.items()})
     mg = p.own_method("LandmarkManager", "_transform_inplace")
     r.instance(mg)
     loops = [n_ for n_ in walk_own(mg.node) if isinstance(n_, ast.For)]
-    ok = len(loops) == 1 and norm(loops[0].iter) in ("self._landmark_groups.values()", "self.values()") and [norm(s) for s in loops[0].body] == ["%s._transform_inplace(%s)" % (norm(loops[0].target), mg.params[1])]
+    ok = False
+    if len(loops) == 1 and len(loops[0].body) == 1:
+        dm_ = Defs(mg.node)
+        lp_, it_, tg_ = loops[0], norm(expand(loops[0].iter, dm_)), loops[0].target
+        b0_ = loops[0].body[0]
+        body_ = norm(expand(b0_.value, dm_)) if isinstance(b0_, ast.Expr) else norm(b0_)
+        tr_ = mg.params[1]
+        if it_ in ("self._landmark_groups.values()", "self.values()") and isinstance(tg_, ast.Name):
+            ok = body_ == "%s._transform_inplace(%s)" % (tg_.id, tr_)
+        elif it_ in ("self._landmark_groups", "self._landmark_groups.keys()", "self", "self.keys()") and isinstance(tg_, ast.Name):
+            ok = body_ in ("self._landmark_groups[%s]._transform_inplace(%s)" % (tg_.id, tr_), "self[%s]._transform_inplace(%s)" % (tg_.id, tr_))
+        elif it_ in ("self._landmark_groups.items()", "self.items()") and isinstance(tg_, ast.Tuple) and len(tg_.elts) == 2:
+            ok = body_ == "%s._transform_inplace(%s)" % (norm(tg_.elts[1]), tr_)
     r.check(ok, mg, mg.node, "the manager must apply the transform to every one of its groups")
 
 
